@@ -273,7 +273,7 @@ func genC16(c *Ctx) {
 		ver := uint8(i % 2)
 		last := genBlob{ns: nss[len(nss)-1], ver: ver, data: r.Bytes(dl)}
 		if ver == 1 {
-			last.signer = r.Bytes(20)
+			last.signer = randSigner(r)
 		}
 		for j := range nss[:len(nss)-1] {
 			if bytes.Compare(nss[j], last.ns) > 0 {
